@@ -42,7 +42,7 @@ func allZero(v reflect.Value) bool {
 }
 
 func runC14(c *Ctx) {
-	c.Res.Rule = "(1) signing-key sets of 0-6 entries mixing plain keys, scopes held by pointer and scopes held by value, templates with every permission / limit field set or not and int64 edge values (0, +-1, 2^53+-1, int64 extremes), through Encode + Decode: key, role, description and template of every scope must come back deep-equal; (2) ValidateScopedSigner over user claims with each field of UserPermissionLimits set or not, other claim kinds, matching / foreign issuers: accepted exactly when user claim AND issuer = scope key AND all permissions/limits zero; (3) IssueUserJWT over account-id role x user-key role x name x duration (0, +-, fractions of a second) x tags: right roles => token that decodes to a scoped user with the given subject, issuer account, name (default = subject), tags, expiry floor(now+d), accepted by the scope; other roles => error and empty token. Model correspondence on every step. non-trivial = distinct cases."
+	c.Res.Rule = "(1) signing-key sets of 0-6 entries mixing plain keys, scopes held by pointer and scopes held by value, templates with every permission / limit field set or not and int64 edge values (0, +-1, 2^53+-1, int64 extremes), through Encode + Decode: key, role, description and template of every scope must come back deep-equal; (2) ValidateScopedSigner over user claims with each field of UserPermissionLimits set or not (including the three nats limits written out as -1 in every combination), other claim kinds, matching / foreign issuers: accepted exactly when user claim AND issuer = scope key AND all permissions/limits zero; (3) IssueUserJWT over account-id role x user-key role x name x duration (0, +-, fractions of a second) x tags: right roles => token that decodes to a scoped user with the given subject, issuer account, name (default = subject), tags, expiry floor(now+d), accepted by the scope; other roles => error and empty token. Model correspondence on every step. non-trivial = distinct cases."
 	okp := kpN('O', 0)
 	// ---------- (1) signing keys survive encode/decode ----------
 	n1 := c.N(300, 30000)
@@ -153,9 +153,21 @@ func runC14(c *Ctx) {
 		var cl jwt.Claims
 		if kind == "user" {
 			u := jwt.NewUserClaims(kr.user[0])
-			switch c.R.Intn(4) {
+			switch c.R.Intn(5) {
 			case 0:
 				u.SetScoped(true)
+			case 3: // nothing of its own except "unlimited" written out: -1 in any of the three nats limits is a limit of its own
+				u.SetScoped(true)
+				m := 1 + c.R.Intn(7)
+				if m&1 != 0 {
+					u.Limits.Subs = jwt.NoLimit
+				}
+				if m&2 != 0 {
+					u.Limits.Data = jwt.NoLimit
+				}
+				if m&4 != 0 {
+					u.Limits.Payload = jwt.NoLimit
+				}
 			case 1: // freshly built: NewUserClaims leaves unlimited limits and an empty source list
 			case 2:
 				u.SetScoped(true)
